@@ -218,6 +218,10 @@ def cases_validators(tier):
             yield "linear-transformation/transform=%s/columns=%d" % (tr, cols), {"v": "linear-apply", "tr": tr, "cols": cols}
     for pms in (None, 1, 9):
         yield "gradient/perturbation_min_success=%s" % pms, {"v": "gradient-min", "pms": pms}
+    # ... with fewer and with more perturbations than the default number (the default of the threshold is the CONFIGURED number)
+    for P in (1, 3, 8, 12):
+        for pms in (None, 2, 20):
+            yield "gradient/%d-perturbations/perturbation_min_success=%s" % (P, pms), {"v": "gradient-min", "pms": pms, "P": P}
     for ptypes in ([1, 1], [2, 1], [2, 2]):
         for tr in (False, True):
             yield "gradient/fix_perturbations/%s/transform=%s" % (ptypes, tr), {"v": "gradient-fix", "ptypes": ptypes, "tr": tr}
@@ -399,10 +403,11 @@ def scn_validators(T, case):
             T.prove("C18.linear.without_transform_the_object_is_returned_unchanged", out is me)
     elif v == "gradient-min":
         cls = _cls(T, sh, "_gradient_config", "GradientConfig")
-        me = Model(number_of_perturbations=5, perturbation_min_success=case["pms"])
+        P = case.get("P", 5)
+        me = Model(number_of_perturbations=P, perturbation_min_success=case["pms"])
         me._immutable()
         raw(cls, "_check_perturbation_min_success")(me)
-        T.prove("C18.gradient.perturbation_min_success_clamped", me.perturbation_min_success == (5 if case["pms"] in (None, 9) else case["pms"]))
+        T.prove("C18.gradient.perturbation_min_success_clamped", me.perturbation_min_success == (P if case["pms"] is None or case["pms"] > P else case["pms"]))
         frozen_ok(T, "C18.gradient", me)
     elif v == "gradient-fix":
         cls = _cls(T, sh, "_gradient_config", "GradientConfig")
@@ -546,6 +551,14 @@ def _gen_config(rng, with_tr):
         cfg["function_estimators"] = [{"method": "mean"}, {"method": "stddev"}][: (2 if R > 1 else 1)]
         cfg["samplers"] = [{"method": "norm"}, {"method": "uniform", "shared": True}]
         cfg["gradient"]["samplers"] = [int(rng.integers(0, 2)) for _ in range(n)]
+    # sections left out altogether: their defaults are validated (canonical, frozen) like given ones
+    if rng.integers(0, 3) == 0:
+        del cfg["objectives"]
+    if rng.integers(0, 3) == 0:
+        del cfg["realizations"]
+        cfg["function_estimators"] = cfg["function_estimators"][:1]
+    if rng.integers(0, 4) == 0:
+        del cfg["optimizer"]
     return cfg, n
 
 
